@@ -127,3 +127,45 @@ func VH_C20_STLReadHistory() {
 	vassert(vtextOf(r2.Items[0]) == t1, "C20 history: a call returns what it returns when run alone")
 	vreach("end")
 }
+
+// The readers that delegate to another layer (TTML: what ReadFromTTML does with the decoded value; teletext: what
+// ReadFromTeletext does with the demultiplexed data): no store into package-level state, and a document read after
+// another one gives what it gives alone.
+func VH_C20_DelegatedReaders() {
+	vmode("int")
+	if choose(2) == 0 {
+		k := choose(vbound("shapes", 8, 24))
+		doc, items, _, _, _ := vc03Doc(k, 5000000000)
+		vttmlDoc, vttmlItems, vttmlItemsPos = doc, []TTMLInItems{items}, 0
+		vfreeze()
+		r1, e1 := ReadFromTTML(bytes.NewReader(vrenderTTML(doc, items)))
+		vreach("ttml alone")
+		// another document in between
+		doc2, items2, _, _, _ := vc03Doc(k+1, 7000000000)
+		vttmlDoc, vttmlItems, vttmlItemsPos = doc2, []TTMLInItems{items2}, 0
+		_, _ = ReadFromTTML(bytes.NewReader(vrenderTTML(doc2, items2)))
+		vttmlDoc, vttmlItems, vttmlItemsPos = doc, []TTMLInItems{items}, 0
+		r2, e2 := ReadFromTTML(bytes.NewReader(vrenderTTML(doc, items)))
+		vassert((e1 == nil) == (e2 == nil), "C20 history: a call fails exactly when it fails alone")
+		if e1 == nil && e2 == nil {
+			vassert(vdeepequal(r1, r2), "C20 history: a call returns what it returns when run alone")
+		}
+		vreach("end")
+		return
+	}
+	k := choose(vbound("schedules", 4, 16))
+	t := []int64{90000, 180000, 270000, 360000}
+	vc06Schedule(k, t)
+	vfreeze()
+	r1, e1 := ReadFromTeletext(bytes.NewReader(vtsBytes()), TeletextOptions{PID: 100, Page: 888})
+	vreach("teletext alone")
+	vc06Schedule(k+1, []int64{1000, 91000, 181000, 271000})
+	_, _ = ReadFromTeletext(bytes.NewReader(vtsBytes()), TeletextOptions{PID: 100, Page: 888})
+	vc06Schedule(k, t)
+	r2, e2 := ReadFromTeletext(bytes.NewReader(vtsBytes()), TeletextOptions{PID: 100, Page: 888})
+	vassert((e1 == nil) == (e2 == nil), "C20 history: a call fails exactly when it fails alone")
+	if e1 == nil && e2 == nil {
+		vassert(vdeepequal(r1, r2), "C20 history: a call returns what it returns when run alone")
+	}
+	vreach("end")
+}
